@@ -236,6 +236,17 @@ func (c *CaseC17) Eval(ob *Obs) []Finding {
 	if base.Failed || L == 0 {
 		return out
 	}
+	// real-binary arm (a sample): the uninstrumented program with its standard output on /dev/full and on a
+	// pipe nobody reads must end with a non-zero status too (this is where main(), signals and os.Exit live)
+	if realBin != "" && c.Only < 0 && verifsim.HashString(hashOf(c.Base))%24 == 0 {
+		for _, sink := range []string{"devfull", "closedpipe"} {
+			rr := runReal(w, sink)
+			ob.count("real_binary_runs", 1)
+			if !rr.failed {
+				out = append(out, Finding{"C17 real-binary-exit0 sink=" + sink + " cmd=" + shape, fmt.Sprintf("the real binary exited 0 although its %d-byte report could not be written (%s); stderr %q", L, sink, short(rr.stderr, 200))})
+			}
+		}
+	}
 	offs, exhaustive := sweepOffsets(L, c.MaxExhaustive, c.Sample, c.SampleSeed, []int{0, 1, 4095, 4096, 4097, 8191, 8192, 8193, L - 1})
 	if c.Only >= 0 {
 		offs, exhaustive = []int{c.Only}, false
@@ -370,6 +381,14 @@ func (c *CaseC10) Eval(ob *Obs) []Finding {
 		}
 		ob.fired(map[bool]string{true: "read_EISDIR", false: "open_" + c.Fault}[c.Kind == "dir"])
 		ob.nontrivial(hashOf(c.Base) + c.Kind + c.Fault)
+		if realBin != "" && c.Fault != "EACCES" && verifsim.HashString(hashOf(c.Base))%8 == 0 {
+			// real-binary arm: a real directory / a really missing file (EACCES cannot be staged: the check may run as root)
+			rr := runReal(fw, "")
+			ob.count("real_binary_runs", 1)
+			if !rr.failed {
+				out = append(out, Finding{"C10 real-binary-unreadable-" + c.Kind + "-exit0" + sigTail, fmt.Sprintf("the real binary exited 0 with %d bytes of output", len(rr.stdout))})
+			}
+		}
 		if !r.Failed {
 			out = append(out, Finding{"C10 unreadable-" + c.Kind + "-exit0" + sigTail,
 				fmt.Sprintf("%s could not be opened/read (%s %s) and the command reported success with %d bytes of output", path, c.Kind, c.Fault, len(r.Stdout))})
